@@ -85,6 +85,7 @@ class RectPartition(object):
             bdry[1:-1] = (vec[1:] + vec[:-1]) / 2.0
             bdry[0] = self.min()[ax]
             bdry[-1] = self.max()[ax]
+            bdry.setflags(write=False)
             bdry_vecs.append(bdry)
 
         self.__cell_boundary_vecs = tuple(bdry_vecs)
